@@ -141,8 +141,13 @@ def _make_feedback(owner, fb):
 
 
 def _cb(tag):
+    """callback logging under a fixed tag, or - for classes shared by several components - under the name
+    MagicRobot gave the instance (its injected logger is named after the component)"""
+    what = tag.split(".", 1)[1]
+
     def f(self):
-        CTX.hit(tag)
+        name = getattr(getattr(self, "logger", None), "name", None)
+        CTX.hit(f"{name}.{what}" if name in CTX.shared_names else tag)
 
     return f
 
@@ -154,8 +159,18 @@ def build_program(rs):
 
     comp_classes = {}
     order = []
+    CTX.shared_names = set()
     for c in rs["comps"]:
         n = c["n"]
+        if c.get("same_as") in comp_classes:
+            # a second component of the same class (front / rear roller): same code, own state
+            comp_classes[n] = comp_classes[c["same_as"]]
+            CTX.shared_names.update({n, c["same_as"]})
+            src = next(x for x in rs["comps"] if x["n"] == c["same_as"])
+            for attr in list(src.get("resets", {})) + list(src.get("base_resets", {})) + list(src.get("plain", {})):
+                CTX.snap_attrs.append((n, attr))
+            order.append(n)
+            continue
         ns = {"__annotations__": {"shared": Shared}}
         if c.get("setup"):
             def setup(self, _n=n):
@@ -164,8 +179,10 @@ def build_program(rs):
                     r.__dict__.get(x["n"]) is not None and r.__dict__[x["n"]].__dict__.get("shared") is r.__dict__.get("shared")
                     for x in rs["comps"]
                 )
-                CTX.setup_probe[_n] = ok
-                CTX.hit(f"{_n}.setup")
+                name = getattr(getattr(self, "logger", None), "name", None)
+                me = name if name in CTX.shared_names else _n
+                CTX.setup_probe[me] = ok
+                CTX.hit(f"{me}.setup")
             ns["setup"] = setup
         late = bool(c.get("late_hooks") and c.get("setup"))
         if c.get("en") and not late:
@@ -259,6 +276,13 @@ def build_program(rs):
         rns["control_loop_wait_time"] = rs["P"] / 1e6
         rns["use_teleop_in_autonomous"] = bool(rs.get("tia"))
     for h in rs["hooks"]:
+        if h in ("teleopInit", "disabledInit") and rs.get("wd_timeout"):
+            # the public watchdog gets another timeout; the loop period stays control_loop_wait_time
+            def init_hook(self, _t=f"robot.{h}"):
+                self.watchdog.setTimeout(rs["P"] * 5 / 1e6)
+                CTX.hit(_t)
+            rns[h] = init_hook
+            continue
         if h == "robotPeriodic":
             def robotPeriodic(self):
                 # keep SmartDashboard (the chooser) serviced, then log and possibly raise
@@ -600,7 +624,7 @@ def tags(step):
 # --------------------------------------------------------------------------
 
 _I = st.integers
-_FB_CODE = st.tuples(_I(0, 4), _I(0, 2), _I(0, 13), st.lists(_I(0, 19), min_size=1, max_size=3))
+_FB_CODE = st.tuples(_I(0, 6), _I(0, 2), _I(0, 13), st.lists(_I(0, 19), min_size=1, max_size=3))
 _COMP_CODE = st.tuples(_I(0, 7), _I(0, 2), _I(0, 1), _I(0, 1), st.lists(_FB_CODE, max_size=2), _I(0, 4))
 _ROBOT_CODE = st.tuples(
     st.lists(_COMP_CODE, max_size=4), _I(0, 4), _I(0, 255), st.booleans(), _I(0, 4),
@@ -612,7 +636,7 @@ _FAULT_CODE = st.lists(st.tuples(_I(0, 63), _I(0, 5)), min_size=1, max_size=3)
 _WRITE_CODE = st.lists(st.tuples(_I(0, 7), _I(1, 6), _I(0, 7), _I(0, 4)), max_size=4)
 _CHUNK_CODE = st.lists(st.lists(_I(1, 4_999), max_size=3), max_size=4)
 
-FB_NAMES = ["get_a", "b", "get_c2", "getter", "get_"]
+FB_NAMES = ["get_a", "b", "get_c2", "getter", "get_", "target_get_count", "widget_count"]  # "get_" may occur anywhere in a name
 RESET_VALUES = [0, False, "v", 2.5, None]
 WRITE_VALUES = [1, True, "w", -7.5, 42]
 
@@ -645,6 +669,12 @@ def decode_robot(code):
     comps = []
     for i, (flags, nres, nbres, nplain, fbs_c, rv) in enumerate(comps_c):
         c = {"n": f"c{i}", "setup": bool(flags & 1), "en": bool(flags & 2), "dis": bool(flags & 4)}
+        if rv == 3 and i > 0 and not comps[i - 1].get("sm") and not comps[i - 1].get("fbs") and not comps[i - 1].get("late_hooks") and not comps[i - 1].get("same_as"):
+            # same class as the previous component: everything but the name is shared
+            prev = comps[i - 1]
+            c = dict(prev, n=f"c{i}", same_as=prev["n"])
+            comps.append(c)
+            continue
         if rv == 2 and not nplain:
             c["sm"] = True  # this component is a magicbot StateMachine
         elif rv == 1 and fbs_c:
@@ -668,7 +698,7 @@ def decode_robot(code):
         "P": PERIODS[p_c], "tia": tia, "hooks": [h for i, h in enumerate(HOOKS) if hooks_c >> i & 1],
         "nbase": min(nbase, len(comps)), "comps": comps,
         "rfbs": [fb for fb in (decode_fb(x, used) for x in rfbs_c) if fb],
-        "modes": [], "sel": None, "inst_cfg": hooks_c % 4 == 1,
+        "modes": [], "sel": None, "inst_cfg": hooks_c % 4 == 1, "wd_timeout": hooks_c % 8 in (2, 6),
     }
     names = ["A", "B mode"]
     for i, d in enumerate(modes_c):
